@@ -2,3 +2,4 @@ import Rustemo.Model.Basic
 import Rustemo.Model.Dump
 import Rustemo.Model.LR
 import Rustemo.Model.Print
+import Rustemo.Model.Cert
